@@ -16,6 +16,7 @@ import (
 
 	"free5gclib/nas"
 
+	"verifh/ev"
 	"verifh/refnas"
 )
 
@@ -373,7 +374,7 @@ func (b *binding) dispatchable() bool { return b.def.HasMT }
 
 // encode / decode go through the public entry points; the security envelope, which has no
 // message type, is reached through its own Encode/Decode methods.
-func (b *binding) encode(m *nas.Message) ([]byte, error) {
+func (b *binding) encodeRaw(m *nas.Message) ([]byte, error) {
 	if b.dispatchable() {
 		return m.PlainNasEncode()
 	}
@@ -383,7 +384,7 @@ func (b *binding) encode(m *nas.Message) ([]byte, error) {
 	return buf.Bytes(), nil
 }
 
-func (b *binding) decode(enc []byte) (*nas.Message, error) {
+func (b *binding) decodeRaw(enc []byte) (*nas.Message, error) {
 	cp := append([]byte{}, enc...)
 	if b.dispatchable() {
 		m := nas.NewMessage()
@@ -397,6 +398,32 @@ func (b *binding) decode(enc []byte) (*nas.Message, error) {
 	p.MethodByName("Decode" + b.def.Name).Call([]reflect.Value{reflect.ValueOf(&cp)})
 	reflect.ValueOf(m.GmmMessage).Elem().Field(b.holder).Set(p)
 	return m, nil
+}
+
+// encode / decode: a panic inside the library becomes an error naming the panic site, so that
+// the oracles can still attribute the failure to its root cause.
+func (b *binding) encode(m *nas.Message) (out []byte, err error) {
+	e, site := ev.Guard(func() error {
+		var e error
+		out, e = b.encodeRaw(m)
+		return e
+	})
+	if site != "" {
+		return nil, fmt.Errorf("panic in %s: %v", site, e)
+	}
+	return out, e
+}
+
+func (b *binding) decode(enc []byte) (m *nas.Message, err error) {
+	e, site := ev.Guard(func() error {
+		var e error
+		m, e = b.decodeRaw(enc)
+		return e
+	})
+	if site != "" {
+		return nil, fmt.Errorf("panic in %s: %v", site, e)
+	}
+	return m, e
 }
 
 // onlyHolder checks that exactly the holder of this message is set after a decode.
